@@ -31,7 +31,7 @@ func init() {
 		PropCheck: "prop_bad_ids",
 		Gen:       c12Gen,
 		Run:       c12Run,
-		Rule:      "GeneratePrivateKey on seeds of every length 0..300 (all-zero, all-0xff, random contents) for BLS, P-256, secp256k1, each called twice; DecodePrivateKey on edge scalars (1, 2, n-1, n, 0, leading zero bytes) with the public key compared to scalar*G; seed lengths in range only modulo 256 (287..1124; modulo 2^16 judged by the runner), nil seed, the seed passed as a window of a larger buffer that must stay untouched, unsupported algorithm values (0, 4, 256+alg, -1) for GeneratePrivateKey / DecodePrivateKey, Encode() results scribbled over (results are values); BLS public keys compared with [scalar] g2 for GENERATED keys, for decoded keys at the ends of the range (1, 2, r-1, 2^64, 2^254) and for aggregated keys with coincidences (k + (r-k) = 0: the identity key, k + k, sums 1 and r-1, three keys) under several cache masks, each also compared with the identity key and re-decoded; cases dealt round-robin over the shards; a case is non-trivial if a key was produced or the input was rejected; distinct by (op, alg, input)",
+		Rule:      "GeneratePrivateKey on seeds of every length 0..300 (all-zero, all-0xff, random contents) for BLS, P-256, secp256k1, each called twice; DecodePrivateKey on edge scalars (1, 2, n-1, n, 0, leading zero bytes) with the public key compared to scalar*G; seed lengths in range only modulo 256 (287..1124; modulo 2^16 judged by the runner), nil seed, the seed passed as a window of a larger buffer that must stay untouched, unsupported algorithm values (0, 4, 256+alg, -1) for GeneratePrivateKey / DecodePrivateKey, Encode() results scribbled over (results are values); BLS public keys compared with [scalar] g2 for GENERATED keys, for decoded keys at the ends of the range (1, 2, r-1, 2^64, 2^254) and for aggregated keys with coincidences (k + (r-k) = 0: the identity key, k + k, sums 1 and r-1, three keys) under several cache masks, each also compared with the identity key and re-decoded; cases dealt round-robin over the shards; a case is non-trivial if a key was produced or the input was rejected; distinct by (op, alg, input); concurrent bursts also generate keys of the other two algorithms from other seeds at the same time",
 		RaceKinds: []string{"keygen-concurrent"},
 		Shard:     c12Shard,
 	})
